@@ -47,6 +47,8 @@ def run(ck, w):
     # results of std::time / std::env calls stay tainted here (Instant::elapsed, duration_since, ...)
     io_clean = re.compile(taint.IO_CALLS.pattern.replace(r"|^std::env::|^std::time::", ""))
     T = taint.Taint(w, set(), decoded_enums=set(), source_calls=VALUE_SOURCES, bounded_sanitize=False, io_calls=io_clean,
+                    # constructors of throw-away archives for tests: where the archive lives is not part of it
+                    skip_bodies=re.compile(r"^transport::Transport::temp$|^transport::local::Protocol::temp$|^test_fixtures::"),
                     no_prop=re.compile(r"^tracing|monitor::Monitor::(count|error|start_task)|Task::(set_name|increment|set_total)$"))
     iters = T.solve()
     ck.stats["nondet_taint"] = {"iterations": iters, "heap_fields_tainted": sorted("%s.%s" % x for x in T.heap)}
